@@ -12,6 +12,7 @@
    result is (items, number of reads, bytes the reader still holds).
    [oks items] = the successfully decoded payloads, in order. *)
 From Compio.Model Require Import Base Frame Cmsg.
+From Compio.Model Require IoHelpers.
 From Compio.Thm Require Import FrameThm CmsgThm.
 
 (* ---------------------------------------------------------------------- *)
@@ -123,6 +124,75 @@ Theorem C13_reader_terminates : forall fr sched src,
     length items + length rest <= length src + length sched.
 Proof. exact decode_stream_total. Qed.
 Print Assumptions C13_reader_terminates.
+
+(* ---------------------------------------------------------------------- *)
+(* the sink with a codec that can fail                                      *)
+
+(* Vocabulary (model/Frame.v): an item is a payload plus, for a flagged item,
+   the number k of bytes the encoder appends to the buffer before it returns
+   an error.  [sink_run fr ops sink_init ws []] drives a fresh Framed sink
+   through a program of feed / send / flush / close against a scripted writer
+   (short writes, Interrupted, errors, Ok(0)); it returns the result of every
+   operation, the final state and the writer's event log. *)
+
+(* `send` for EVERY list of items, with failures at arbitrary positions and
+   arbitrary partial outputs, EVERY writer script under which no write error
+   is reported: the bytes handed to the writer are exactly the concatenation
+   of the framings of the successfully encoded items, each framed on its own;
+   a failing item yields a codec error for that item only. *)
+Theorem C13_sink_frames : forall fr items ws rs sk' log',
+  sink_run fr (map SSend items) sink_init ws [] = (rs, sk', log') ->
+  Forall (fun r => ~ io_err r) rs ->
+  IoHelpers.sink_bytes log' = encode_stream fr (ok_payloads items) /\
+  rs = map (fun it => match si_fail it with None => SOk | Some _ => SCodecErr end) items.
+Proof. exact sink_send_all. Qed.
+Print Assumptions C13_sink_frames.
+
+(* the same for every program mixing feed, send, flush and close: what the
+   writer got plus the frame still pending = the framings of the ok items *)
+Theorem C13_sink_program : forall fr ops ws rs sk' log',
+  sink_run fr ops sink_init ws [] = (rs, sk', log') ->
+  Forall (fun r => ~ io_err r) rs ->
+  rs = map expected_res ops /\
+  IoHelpers.sink_bytes log' ++ pend sk' = concat (ok_frames fr ops).
+Proof. exact sink_program_exact. Qed.
+Print Assumptions C13_sink_program.
+
+(* EVERY writer script, errors included: the writer only ever sees prefixes of
+   the framings of successfully encoded items, in order — never a byte of a
+   failed item, never a frame glued to what the buffer held before *)
+Theorem C13_sink_no_leak : forall fr ops ws rs sk' log',
+  sink_run fr ops sink_init ws [] = (rs, sk', log') ->
+  exists bs, pieces (ok_frames fr ops) bs /\
+    (sk_writing sk' = false -> bs = IoHelpers.sink_bytes log') /\
+    (sk_writing sk' = true -> bs = IoHelpers.sink_bytes log' ++ sk_buf sk').
+Proof. exact sink_no_leak. Qed.
+Print Assumptions C13_sink_no_leak.
+
+(* a decoder that rejects some frames: the rejected frame is consumed like any
+   other, the following frames are unaffected *)
+Theorem C13_failing_decoder : forall fr frames ns,
+  framer_ok fr -> delimited fr -> Forall (payload_ok fr) frames ->
+  Forall (fun n => 1 <= n) ns -> length (encode_stream fr frames) <= length ns ->
+  exists items reads,
+    decode_stream_probe fr (map RdChunk ns) (encode_stream fr frames) =
+      Ok (map probe_decode items, reads, []) /\
+    oks items = frames.
+Proof. exact roundtrip_probe_decoder. Qed.
+Print Assumptions C13_failing_decoder.
+
+Example C13_nonvacuous_sink :
+  sink_run (LenDelim 2 true)
+    [SSend (mksitem [1;2;3]%N None); SFeed (mksitem [7;7;7;7]%N (Some 2));
+     SFeed (mksitem [9]%N None); SFlush; SFlush; SSend (mksitem [5;5]%N (Some 9)); SClose]
+    sink_init
+    [IoHelpers.AChunk 2; IoHelpers.AErr E_INTERRUPTED; IoHelpers.AChunk 100; IoHelpers.AChunk 1;
+     IoHelpers.AChunk 100] []
+  = ([SOk; SCodecErr; SOk; SOk; SOk; SCodecErr; SOk], mksink [] false false,
+     [IoHelpers.WBytes [0;3]%N; IoHelpers.WBytes [1;2;3]%N; IoHelpers.WBytes [0%N];
+      IoHelpers.WBytes [1;9]%N; IoHelpers.WFlush; IoHelpers.WShutdown]).
+Proof. vm_compute. reflexivity. Qed.
+Print Assumptions C13_nonvacuous_sink.
 
 (* ---------------------------------------------------------------------- *)
 (* ancillary data                                                           *)
